@@ -62,7 +62,7 @@ type minCase struct {
 	ConvAbs                            int // Absolute = 10^-ConvAbs
 	Init                               int // 0 nil 1 F 2 F+Grad 3 F+Grad+Hess
 	Concurrent                         int
-	Rec                                int // 0 no recorder, -1 Init fails, -2 never fails, k>0 the k-th Record fails
+	Rec                                int // 0 no recorder, -1 Init fails, -2 never fails, k>0 the k-th Record call (only) fails
 	StatAt                             int // 0 no Problem.Status, k>0 terminal from the k-th call on
 	StatKind                           int // 0 (NotTerminated, err) 1 (custom, nil) 2 (custom, err)
 }
@@ -164,6 +164,42 @@ func (c minCase) linesearcher() optimize.Linesearcher {
 		return &optimize.MoreThuente{DecreaseFactor: mtDecrease[p], CurvatureFactor: mtCurvature[p]}
 	}
 	return nil
+}
+
+// wolfeConstants returns the documented constants of the line searcher in use:
+// the sufficient decrease factor, the curvature factor and whether a
+// curvature condition is promised at all.
+func (c minCase) wolfeConstants() (dec, curv float64, wolfe bool) {
+	ls, p := c.LS, c.LSParam%5
+	if ls == 0 {
+		switch c.Method {
+		case mGD:
+			return 1e-4, 0, false // Backtracking{}
+		case mCG:
+			return 0, 0.1, true // MoreThuente{CurvatureFactor: 0.1}
+		default:
+			return 0, 0.9, true // Bisection{}
+		}
+	}
+	switch ls {
+	case 1:
+		dec = btDecrease[p]
+		if dec == 0 {
+			dec = 1e-4
+		}
+		return dec, 0, false
+	case 2:
+		curv = biCurvature[p]
+		if curv == 0 {
+			curv = 0.9
+		}
+		return 0, curv, true
+	}
+	curv = mtCurvature[p]
+	if curv == 0 {
+		curv = 0.9
+	}
+	return mtDecrease[p], curv, true
 }
 
 func (c minCase) stepSizer() optimize.StepSizer {
@@ -317,7 +353,7 @@ func (r *recorder) Record(l *optimize.Location, op optimize.Operation, s *optimi
 		}
 	}
 	r.recs = append(r.recs, rec)
-	if r.failAt > 0 && r.n >= r.failAt {
+	if r.failAt > 0 && r.n == r.failAt { // exactly once: a dropped error is not repeated by the PostIteration record
 		r.failed = true
 		return errRecorder
 	}
@@ -553,7 +589,19 @@ func checkMin(c minCase) *vk.Failure {
 	}
 	if serial {
 		if recFailed && !errors.Is(out.err, errRecorder) {
-			return vk.Failf("recorder-error-lost", "the Recorder returned an error at its call %d but %s", c.Rec, desc())
+			// The global methods declare one more major iteration after the run has
+			// been stopped by an evaluation (limit, Problem.Status); an error of the
+			// Recorder at that point comes after the first termination cause and is
+			// not reported (nothing is documented for it).
+			last := out.rec.recs[len(out.rec.recs)-1]
+			if n := len(out.rec.recs); n >= 2 && last.op == optimize.PostIteration {
+				last = out.rec.recs[n-2]
+			}
+			afterStop := !c.local() && last.op == optimize.MajorIteration && (isLimit(res.Status) && res.Status != optimize.IterationLimit || res.Status == statusCustom || errors.Is(out.err, errStatus))
+			if !afterStop {
+				return vk.Failf("recorder-error-lost", "the Recorder returned an error at its call %d but %s", c.Rec, desc())
+			}
+			vk.Class("min-recorder-error-after-stop")
 		}
 		if statusFired && !recFailed {
 			switch c.StatKind {
@@ -719,7 +767,8 @@ func checkMin(c minCase) *vk.Failure {
 	// ---- coherence of the reported location
 	x0seen := c.Init >= 1
 	evaluated, valueOK := out.tp.hasF(res.X, res.F)
-	if !evaluated && x0seen && sameBitsVec(res.X, o.x0) {
+	if x0seen && sameBitsVec(res.X, o.x0) && (!evaluated || !valueOK) {
+		// the value at x0 was supplied through InitValues
 		evaluated, valueOK = true, vk.SameBits(res.F, out.f0.(float64))
 	}
 	badF := math.IsNaN(res.F) || math.IsInf(res.F, 1)
@@ -759,7 +808,7 @@ func checkMin(c minCase) *vk.Failure {
 		}
 		if res.Gradient != nil {
 			gEval, gOK := out.tp.hasG(res.X, res.Gradient)
-			if !gEval && c.Init >= 2 && sameBitsVec(res.X, o.x0) {
+			if (!gEval || !gOK) && c.Init >= 2 && sameBitsVec(res.X, o.x0) {
 				gEval, gOK = true, sameBitsVec(res.Gradient, out.g0.([]float64))
 			}
 			if !gEval || !gOK {
@@ -820,6 +869,38 @@ func checkMin(c minCase) *vk.Failure {
 				if clean && !(c.Method == mCmaEs && c.Forget) && !(res.F <= r.f) {
 					return vk.Failf("result-not-best-major-iteration", "major iteration %d had F=%v: %s", nMajor, r.f, desc())
 				}
+			}
+		}
+		// the line search conditions between consecutive major iterations of the
+		// line-search based methods: x_{k+1} = x_k + s d, so s φ'(0) = ∇f_k·Δx
+		if clean && c.gradBased() {
+			dec, curv, wolfe := c.wolfeConstants()
+			var prev *opRec
+			k := 0
+			for i := range recs {
+				r := &recs[i]
+				if r.op != optimize.MajorIteration || r.g == nil {
+					continue
+				}
+				k++
+				if prev != nil {
+					g0d, g1d, scale := 0.0, 0.0, 0.0
+					for j := range r.x {
+						dx := r.x[j] - prev.x[j]
+						g0d += prev.g[j] * dx
+						g1d += r.g[j] * dx
+						scale += (math.Abs(prev.g[j]) + math.Abs(r.g[j])) * (math.Abs(prev.x[j]) + math.Abs(r.x[j]))
+					}
+					// Δx carries the rounding of x_k + s d: absolute slack 8 n eps Σ|g||x|
+					abs := 8 * float64(len(r.x)) * vk.Eps * scale
+					if !(r.f <= prev.f+dec*g0d+abs+1e-12*(math.Abs(prev.f)+math.Abs(r.f))) {
+						return vk.Failf("major-iterations-violate-sufficient-decrease", "major iterations %d -> %d: F %v -> %v, ∇f_k·Δx = %v, decrease factor %g: %s", k-1, k, prev.f, r.f, g0d, dec, desc())
+					}
+					if wolfe && !(math.Abs(g1d) <= curv*math.Abs(g0d)*(1+1e-9)+abs) {
+						return vk.Failf("major-iterations-violate-curvature", "major iterations %d -> %d: |∇f_{k+1}·Δx| = %v > %g·|∇f_k·Δx| = %v: %s", k-1, k, math.Abs(g1d), curv, curv*math.Abs(g0d), desc())
+					}
+				}
+				prev = r
 			}
 		}
 		last := recs[len(recs)-1]
